@@ -301,7 +301,14 @@ def graph_effects(fx, b):
             if r is False:
                 tests = None
                 break
-            tests += [t for t in r if t[0] != "survived"]
+            # an earlier `continue` / `return` in the same pass that was not taken is a condition of this operation like any other
+            # (one taken before the loop - `if .. { return true }` ahead of it - says nothing about this element and is left out)
+            own = {("each", n_) for n_ in loops} | {("each", cv(n_)) for n_ in nest}
+            for t in r:
+                if t[0] != "survived":
+                    tests.append(t)
+                elif any(x in own for x in sym.subterms(t[1])) or any(x in own for x in sym.subterms(c)):
+                    tests.append(t[1])
         if tests is None:
             continue
         recs.append({"op": eff[1].split("::")[1], "nest": [cv(n) for n in nest], "tests": tests, "args": [cv(a) for a in eff[2]]})
